@@ -28,7 +28,10 @@ def main():
         for sc in SCENARIOS[a.property]:
             if a.only and sc != a.only: continue
             mod = importlib.import_module('bounded.' + sc)
-            cov, findings = mod.run({a.property}, a.tier, a.seed, a.budget)
+            budget = a.budget
+            if budget is not None and budget < 0:          # multiplier of the tier's default budget
+                budget = -budget * mod.DEFAULT_BUDGET[a.tier]
+            cov, findings = mod.run({a.property}, a.tier, a.seed, budget)
             doc['scenarios'][sc] = cov
             doc['findings'] += [f.to_json() for f in findings]
     doc['wall_s'] = round(time.time() - t0, 2)
